@@ -101,11 +101,12 @@ pub fn minimize_source(v: &Value, still_fails: &dyn Fn(&str, &Value) -> bool) ->
     let source = v.get("source")?.as_str()?;
     let block = crate::luasyn::parse(source, crate::luasyn::Mode::Luau).ok()?.block;
     // never reduce INTO the trigger of a listed known finding
-    let orig_known = crate::visit::has_const_andor_multi_tail(&block) || has_underscore_binding(&block);
+    let known = |b: &Block| crate::visit::has_const_andor_multi_tail(b) || has_underscore_binding(b) || crate::visit::has_interp_tostring_order(b);
+    let orig_known = known(&block);
     let accept = |text: &str| -> bool {
         if !orig_known {
             if let Ok(p) = crate::luasyn::parse(text, crate::luasyn::Mode::Luau) {
-                if crate::visit::has_const_andor_multi_tail(&p.block) || has_underscore_binding(&p.block) {
+                if known(&p.block) {
                     return false;
                 }
             }
@@ -135,4 +136,8 @@ pub fn filter_const_andor(b: &Block) -> Option<&'static str> {
 
 pub fn has_underscore_binding(b: &Block) -> bool {
     crate::luasyn::resolve::resolve(b).occurrences.iter().any(|o| o.name == "_" && o.role.is_decl())
+}
+
+pub fn filter_interp_order(b: &Block) -> Option<&'static str> {
+    crate::visit::has_interp_tostring_order(b).then_some("avoided: known finding interp-tostring-order")
 }
